@@ -33,7 +33,7 @@ ObjEvents(ww, os, x, res) ==
          \cup {Ev("getitem_slice", x, "", res, <<3>>, <<>>) : q \in (IF On("getitem_slice") THEN {1} ELSE {})}
          \cup {Ev("by_arm", x, "", "", M.arms[1], <<>>) : q \in (IF On("by_arm") /\ M.arms # <<>> THEN {1} ELSE {})}
     ELSE
-       {Ev(m, x, "", "", <<>>, <<>>) : m \in {"len", "bool", "iter", "labels", "by_chromosome", "shuffle", "sort", "sort_columns"} \cap ops}
+       {Ev(m, x, "", "", <<>>, <<>>) : m \in {"len", "bool", "iter", "labels", "by_chromosome", "shuffle", "sort", "sort_columns", "as_series"} \cap ops}
     \cup {Ev(m, x, "", res, <<>>, <<>>) : m \in {"copy", "drop_extra_columns"} \cap ops}
     \cup {Ev("getitem_none", x, "", res, <<k>>, <<>>) : k \in (IF On("getitem_none") THEN {0, 1} ELSE {})}
     \cup {Ev("getitem_int", x, "", "", <<k>>, <<>>) : k \in (IF On("getitem_int") THEN Range(M.intidx) ELSE {})}
